@@ -185,5 +185,13 @@ func (p *Program) LookupType(name string) types.Type {
 	if o := p.Pkg.Pkg.Scope().Lookup(name); o != nil {
 		return o.Type()
 	}
+	// types declared inside a function (e.g. ServerContext in (*Server).listen)
+	if p.PPkg != nil && p.PPkg.TypesInfo != nil {
+		for id, o := range p.PPkg.TypesInfo.Defs {
+			if tn, ok := o.(*types.TypeName); ok && id.Name == name && tn.Parent() != p.Pkg.Pkg.Scope() {
+				return tn.Type()
+			}
+		}
+	}
 	return nil
 }
